@@ -306,7 +306,7 @@ pub const C29: Check = Check {
     id: "C29",
     level: "fault_enumeration",
     rule: "full product fallback policy {never,stale,new} x RRDP outcome {updated(snapshot), updated(delta), not-modified, failed with \
-           current copy, failed with expired copy (virtual clock moved past rrdp-fallback-time), failed with no copy} x RRDP enabled/disabled x rsync \
+           current copy, failed with a copy whose first best-before date has passed but which a later no-change update (304 or same serial) made current again, failed with expired copy (virtual clock moved past rrdp-fallback-time), failed with no copy} x RRDP enabled/disabled x rsync \
            enabled/disabled x child CA with/without rpkiNotify. The child's publication point exists in three versions with different \
            marker VRPs: v1 (primed/stored), v2 (current RRDP content), v3 (rsync content), so the served payload names the transport \
            that was used; the fake rsync log and fake HTTPS log name the transport that was asked. Oracle: decision table written from \
@@ -321,7 +321,7 @@ pub const C29: Check = Check {
 };
 
 #[derive(Clone, Copy, Debug, PartialEq, Eq)]
-enum Outcome { UpdatedSnapshot, UpdatedDelta, NotModified, FailedCurrent, FailedStale, FailedNoCopy }
+enum Outcome { UpdatedSnapshot, UpdatedDelta, NotModified, FailedCurrent, FailedCurrentRefreshed304, FailedCurrentRefreshedSameSerial, FailedStale, FailedNoCopy }
 
 #[derive(Clone, Copy, Debug, PartialEq, Eq)]
 enum Transport { Rrdp, Rsync, NoFetch }
@@ -344,7 +344,7 @@ fn run_c29(ctx: &mut Ctx, rep: &mut Report) {
     if !crate::clock::self_test() { rep.inconclusive("virtual clock shim inactive"); return }
     let rounds = ctx.tier.pick(1usize, 5);
     let mut case_no = 0usize;
-    let outcomes = [Outcome::UpdatedSnapshot, Outcome::UpdatedDelta, Outcome::NotModified, Outcome::FailedCurrent, Outcome::FailedStale, Outcome::FailedNoCopy];
+    let outcomes = [Outcome::UpdatedSnapshot, Outcome::UpdatedDelta, Outcome::NotModified, Outcome::FailedCurrent, Outcome::FailedCurrentRefreshed304, Outcome::FailedCurrentRefreshedSameSerial, Outcome::FailedStale, Outcome::FailedNoCopy];
     for _round in 0..rounds {
         let base = { let mut w = gen_chain(&mut rng, now_ts() - 600, 1, 2); w.cas[0].repo = 0; w.cas[1].repo = 1; w.cas[0].rrdp = true;
             let mut m = crate::props::hist::marker(0, 0); m.nb = w.now - DAY; m.na = w.now + 50 * DAY; w.cas[0].objects.push(m); w };
@@ -377,7 +377,7 @@ fn run_c29(ctx: &mut Ctx, rep: &mut Report) {
             env.config.disable_rrdp = !rrdp_on;
             env.config.disable_rsync = !rsync_on;
             let mut servers = RrdpServers::default();
-            let primed = matches!(outcome, Outcome::UpdatedDelta | Outcome::NotModified | Outcome::FailedCurrent | Outcome::FailedStale) && rrdp_on && notify;
+            let primed = matches!(outcome, Outcome::UpdatedDelta | Outcome::NotModified | Outcome::FailedCurrent | Outcome::FailedCurrentRefreshed304 | Outcome::FailedCurrentRefreshedSameSerial | Outcome::FailedStale) && rrdp_on && notify;
             if primed {
                 env.serve(&with_https_tal(&p1));
                 servers.publish(&w1, &p1, &fake, &BTreeMap::new());
@@ -386,19 +386,32 @@ fn run_c29(ctx: &mut Ctx, rep: &mut Report) {
                 let ok = o.snapshot.as_ref().map(|s| observe(s).vrps.iter().any(|v| crate::props::hist::marker_version(v) == Some((1, 1)))).unwrap_or(false);
                 if !ok { rep.inconclusive(format!("priming run did not produce version 1 of the child ({:?}, rsync {rsync_on})", policy)); continue }
             }
+            if primed && matches!(outcome, Outcome::FailedCurrentRefreshed304 | Outcome::FailedCurrentRefreshedSameSerial) {
+                // the copy's first best-before date passes, then a successful update finds nothing new (once answered
+                // 304, once 200 with the same serial): the copy is current again from that moment
+                crate::clock::set_offset(45);
+                let mut f = BTreeMap::new();
+                if outcome == Outcome::FailedCurrentRefreshedSameSerial { f.insert(1usize, Faults { no_etag: true, ..Default::default() }); }
+                servers.publish(&w1, &p1, &fake, &f);
+                fake.set(ta_url, Reply::ok(ta.to_vec()));
+                let o = run_engine(&env.config, true, &LocalExceptions::empty());
+                let ok = o.snapshot.as_ref().map(|s| observe(s).vrps.iter().any(|v| crate::props::hist::marker_version(v) == Some((1, 1)))).unwrap_or(false);
+                if !ok { rep.inconclusive("refreshing run did not produce version 1 of the child"); crate::clock::set_offset(0); continue }
+            }
             // test-run content: rsync serves v3, RRDP serves v2 (or still v1 for not-modified)
             env.serve(&with_https_tal(&p3));
             let mut faults = BTreeMap::new();
             match outcome {
                 Outcome::UpdatedSnapshot | Outcome::UpdatedDelta => servers.publish(&w2, &p2, &fake, &faults),
                 Outcome::NotModified => servers.publish(&w1, &p1, &fake, &faults),
-                Outcome::FailedCurrent | Outcome::FailedStale | Outcome::FailedNoCopy => {
+                Outcome::FailedCurrent | Outcome::FailedCurrentRefreshed304 | Outcome::FailedCurrentRefreshedSameSerial | Outcome::FailedStale | Outcome::FailedNoCopy => {
                     faults.insert(1usize, match rng.usize(3) { 0 => Faults { notify_status: Some(500), ..Default::default() }, 1 => Faults { notify_broken_xml: true, ..Default::default() }, _ => Faults { snapshot_status: Some(404), delta_fault: Some((0, crate::net::rrdp::DeltaFault::Status(404))), ..Default::default() } });
                     servers.publish(&w2, &p2, &fake, &faults);
                 }
             }
             fake.set(ta_url, Reply::ok(ta.to_vec()));
             if outcome == Outcome::FailedStale { crate::clock::set_offset(120); }
+            if matches!(outcome, Outcome::FailedCurrentRefreshed304 | Outcome::FailedCurrentRefreshedSameSerial) { crate::clock::set_offset(50); }
             fake.take_log();
             env.clear_rsync_log();
             crate::caplog::install(log::LevelFilter::Debug); crate::caplog::clear();
@@ -414,7 +427,7 @@ fn run_c29(ctx: &mut Ctx, rep: &mut Report) {
                     Outcome::UpdatedSnapshot | Outcome::UpdatedDelta | Outcome::NotModified => Transport::Rrdp,
                     Outcome::FailedNoCopy => if rsync_on && matches!(policy, FallbackPolicy::New | FallbackPolicy::Stale) { Transport::Rsync } else { Transport::NoFetch },
                     Outcome::FailedStale => if rsync_on && matches!(policy, FallbackPolicy::Stale) { Transport::Rsync } else { Transport::NoFetch },
-                    Outcome::FailedCurrent => Transport::NoFetch,
+                    Outcome::FailedCurrent | Outcome::FailedCurrentRefreshed304 | Outcome::FailedCurrentRefreshedSameSerial => Transport::NoFetch,
                 }
             };
             let expected_version: Option<usize> = match expected {
